@@ -397,6 +397,12 @@ class Report:
         self.obligations = 0
         self.discharged = 0
         self.notes = {}
+        # stale replay files of this property and tier must not outlive this run
+        rdir = os.path.join(VERIF, "replays")
+        if os.path.isdir(rdir):
+            for fn in os.listdir(rdir):
+                if fn.startswith("%s-%s-" % (prop_id, tier)):
+                    os.remove(os.path.join(rdir, fn))
 
     def add_props(self, res):
         n = len(res["theorems"]) + 1          # + hygiene scan
